@@ -9,6 +9,7 @@ import (
 	"errors"
 	"fmt"
 	"strings"
+	"sync"
 	"testing"
 
 	"github.com/beevik/etree"
@@ -155,7 +156,7 @@ func TestVerifReplayNcSet(t *testing.T) {
 							for _, fd := range faults {
 								d := &vrDriver{edit: fe, commit: fc, discard: fd}
 								src := &vrSource{xmlErr: xmlErr, empty: empty}
-								nt := &ncTarget{name: "replay", driver: d, sbiConfig: &config.SBI{NetconfOptions: &config.SBINetconfOptions{CommitDatastore: ds}}}
+								nt := &ncTarget{name: "replay", m: new(sync.Mutex), driver: d, sbiConfig: &config.SBI{NetconfOptions: &config.SBINetconfOptions{CommitDatastore: ds}}}
 								fn := ""
 								var err error
 								func() {
